@@ -390,7 +390,7 @@ INVS = {
 }
 
 
-def run_prop(prop, qs, tier, seed, build, nrand_quick=40, nrand_thorough=600, what=""):
+def run_prop(prop, qs, tier, seed, build, nrand_quick=40, nrand_thorough=600, what="", extra_observed=()):
     rep = Report(prop, tier, seed)
     rng = random.Random(seed)
     kfs = open_deviations(prop)
@@ -451,6 +451,12 @@ def run_prop(prop, qs, tier, seed, build, nrand_quick=40, nrand_thorough=600, wh
         eid += 2
         groups.append(g)
         rep.nontrivial(key_of(pd, r))
+    for (pd, r, obs, ok) in extra_observed:      # already observed by the caller (e.g. through an assembly)
+        g = [dict(ev="define", id=eid, pd=pd), dict(ev="eval", id=eid + 1, req=r, obs=obs, flags_ok=ok)]
+        meta[eid + 1] = (pd, r)
+        eid += 2
+        groups.append(g)
+        rep.nontrivial(key_of(pd, {k: v for k, v in r.items() if k != "c"}) + ("assembly", r.get("coff")))
     tcfg = ("CONSTANTS\nNFun = 8\nDeviations = {}\nTol = %d\nTolSolve = 30\nOpenKF = {%s}\n"
             % (TOL, ", ".join('"%s"' % k for k in kfs)))
     verdicts, results, problems = validate_trace(prop.lower() + "-tr", "Trace_PanelModel", tcfg, groups,
